@@ -58,6 +58,9 @@ def _one_variant(job):
     return (m.name, kind, "ran", (new_ref, new_unk, err), m.expect)
 
 
+GLOBAL_NEUTRALS = ("alpha", "kw", "hoist", "swap")
+
+
 def self_validate(mod, prop, tier, base: Ctx, budget_s: float):
     """Seeded variants must be REFUTED by the named rule, neutral variants must
     stay silent.  Variants are in-memory overlays of the *current* source."""
@@ -69,13 +72,12 @@ def self_validate(mod, prop, tier, base: Ctx, budget_s: float):
     base_bad = {f.key for f in base.findings if f.verdict in (REFUTED, UNKNOWN)}
     jobs = [(prop, "seeded", m, base_bad) for m in getattr(mod, "MUTANTS", [])]
     jobs += [(prop, "neutral", m, base_bad) for m in getattr(mod, "NEUTRALS", [])]
-    if not jobs:
-        return res
-    workers = min(len(jobs), os.cpu_count() or 4, 16)
+    workers = min(len(jobs) + len(GLOBAL_NEUTRALS), os.cpu_count() or 4, 16)
     results = []
     try:
         with cf.ProcessPoolExecutor(max_workers=workers, mp_context=mp.get_context("fork")) as ex:
             futs = [ex.submit(_one_variant, j) for j in jobs]
+            futs += [ex.submit(_global_neutral, prop, base_bad, w) for w in GLOBAL_NEUTRALS]
             done, pending = cf.wait(futs, timeout=budget_s)
             for f in futs:
                 if f in done:
@@ -84,9 +86,7 @@ def self_validate(mod, prop, tier, base: Ctx, budget_s: float):
                     f.cancel()
                     res["skipped_for_time"] += 1
     except (OSError, PermissionError):
-        results = [_one_variant(j) for j in jobs]
-    results.append(_global_neutral(prop, base_bad))
-    results.append(_global_neutral(prop, base_bad, which="kw"))
+        results = [_one_variant(j) for j in jobs] + [_global_neutral(prop, base_bad, w) for w in GLOBAL_NEUTRALS]
     for name, kind, state, payload, expect in results:
         if state == "inapplicable":
             res["inapplicable"] += 1
@@ -123,18 +123,26 @@ def _global_neutral(prop, base_bad, which="alpha"):
     """Whole-package behaviour-preserving rewrites (alpha-renaming of locals and closures with re-emission of
     every module; keyword arguments of side-effect-free calls reversed): must change no verdict."""
     from .model import repo_root
-    from .neutral import alpha_overlay, kwreverse_overlay
+    from .neutral import alpha_overlay, hoist_overlay, kwreverse_overlay, swap_overlay
 
     mod = load_rules(prop)
-    name = "every local variable and closure of the package renamed, modules re-emitted without comments/layout" if which == "alpha" else \
-        "keyword arguments reversed in every call with side-effect-free keyword values"
+    name = {"alpha": "every local variable and closure of the package renamed, modules re-emitted without comments/layout",
+            "kw": "keyword arguments reversed in every call with side-effect-free keyword values",
+            "hoist": "nested call arguments of simple statements hoisted into temporaries, package-wide",
+            "swap": "every if/else and conditional expression rewritten with the negated test and swapped branches"}[which]
     try:
         if which == "alpha":
             overlay, n_f, n_l = alpha_overlay(repo_root())
             name += f" ({n_l} names in {n_f} functions)"
-        else:
+        elif which == "kw":
             overlay, n_c = kwreverse_overlay(repo_root())
             name += f" ({n_c} calls)"
+        elif which == "hoist":
+            overlay, n_c = hoist_overlay(repo_root())
+            name += f" ({n_c} temporaries)"
+        else:
+            overlay, n_c = swap_overlay(repo_root())
+            name += f" ({n_c} conditionals)"
         v = run_rules(mod, prop, "quick", Repo(overlay=overlay))
         new_ref = [(f.rule, f.key) for f in v.findings if f.verdict == REFUTED and f.key not in base_bad]
         new_unk = [(f.rule, f.key) for f in v.findings if f.verdict == UNKNOWN and f.key not in base_bad]
